@@ -5,6 +5,9 @@
 //!   rbf_m kind var ls rx cx <rx*cx> ry cy <ry*cy>  -> = nrows ncols <data> <scalar forward at (x_i, y_j), row-major>
 //!   rq_m  kind var alpha ls rx cx <..> ry cy <..>  -> = nrows ncols <data> <scalar forward at (x_i, y_j), row-major>
 //! (the scalar values use the f64 impl for even kinds and the &f64 impl for odd kinds)
+//!   rbf_g kind var ls r c <r*c> idx val            -> the reply of `rbf_m` on the MUTATED point set (x = y), after a first
+//!   rq_g  kind var alpha ls r c <r*c> idx val         call on the original set: the same Vector / Matrix object is
+//!                                                      evaluated, mutated in place at flat index idx, evaluated again
 //! form ∈ {0: f64, 1: &f64}; kind ∈ {0: Vector, 1: &Vector, 2: Matrix, 3: &Matrix}.
 use compute::prelude::{Kernel, Matrix, RBFKernel, RQKernel, Vector};
 use cvexec::*;
@@ -79,6 +82,58 @@ macro_rules! matrix_forms {
     }};
 }
 
+/// Evaluate on a point set, mutate the same object in place, evaluate again; reply = second result.
+macro_rules! mutate_forms {
+    ($k:expr, $kind:expr, $p:expr, $idx:expr, $val:expr) => {{
+        let (r, c, d) = $p;
+        if $idx >= d.len() {
+            return Err(BadOp);
+        }
+        let m: Matrix = match $kind {
+            0 => {
+                let mut v = Vector::from(d.clone());
+                let _first: Matrix = $k.forward(v.clone(), v.clone());
+                v[$idx] = $val;
+                $k.forward(v.clone(), v.clone())
+            }
+            1 => {
+                let mut v = Vector::from(d.clone());
+                let _first: Matrix = $k.forward(&v, &v);
+                v[$idx] = $val;
+                $k.forward(&v, &v)
+            }
+            2 => {
+                let mut a = Matrix::new(d.clone(), r as i32, c as i32);
+                let _first: Matrix = $k.forward(a.clone(), a.clone());
+                a.data[$idx] = $val;
+                $k.forward(a.clone(), a.clone())
+            }
+            3 => {
+                let mut a = Matrix::new(d.clone(), r as i32, c as i32);
+                let _first: Matrix = $k.forward(&a, &a);
+                a.data[$idx] = $val;
+                $k.forward(&a, &a)
+            }
+            _ => return Err(BadOp),
+        };
+        let mut pts = d.clone();
+        pts[$idx] = $val;
+        let mut all: Vec<f64> = m.data.to_vec();
+        for &a in pts.iter() {
+            for &b in pts.iter() {
+                let v: f64 = if $kind % 2 == 0 { $k.forward(a, b) } else { $k.forward(&a, &b) };
+                all.push(v);
+            }
+        }
+        let mut s = format!("{} {}", m.nrows, m.ncols);
+        if !all.is_empty() {
+            s.push(' ');
+            s.push_str(&show_fs(&all));
+        }
+        Ok(ok(s))
+    }};
+}
+
 fn step(_: &mut (), t: &mut Toks) -> R<String> {
     match t.tok()? {
         "rbf_p" => {
@@ -116,6 +171,24 @@ fn step(_: &mut (), t: &mut Toks) -> R<String> {
             t.end()?;
             let k = RQKernel::new(var, alpha, ls);
             matrix_forms!(k, kind, x, y)
+        }
+        "rbf_g" => {
+            let kind = t.usize()?;
+            let (var, ls) = (t.f64()?, t.f64()?);
+            let p = pts(t, kind)?;
+            let (idx, val) = (t.usize()?, t.f64()?);
+            t.end()?;
+            let k = RBFKernel::new(var, ls);
+            mutate_forms!(k, kind, p, idx, val)
+        }
+        "rq_g" => {
+            let kind = t.usize()?;
+            let (var, alpha, ls) = (t.f64()?, t.f64()?, t.f64()?);
+            let p = pts(t, kind)?;
+            let (idx, val) = (t.usize()?, t.f64()?);
+            t.end()?;
+            let k = RQKernel::new(var, alpha, ls);
+            mutate_forms!(k, kind, p, idx, val)
         }
         _ => Err(BadOp),
     }
